@@ -1,6 +1,7 @@
 //! Conformance harness shared code: drives the real fidget crates and records
 //! observations as integer-only ndjson for the TLA+ trace specifications.
 pub mod pgen;
+pub mod shapes;
 pub mod ctxb;
 pub mod dual;
 pub mod evalx;
